@@ -297,7 +297,8 @@ def valid_case(draw, tier):
         n = len(vals)
         cols = [{"name": "id", "kind": "int", "values": list(range(n))},
                 {"name": "val", "kind": dtype, "values": vals},
-                {"name": "x", "kind": "float", "values": [0.5] * n}]
+                {"name": "x", "kind": "float",
+                 "values": [float("nan") if i % 2 else 0.5 for i in range(n)]}]
         tabs.append({"columns": cols, "index": list(range(n)), "key": "id", "attr": "val"})
     return {"tok": tokcfg, "L": tabs[0], "R": tabs[1], "shapes": shapes, "dtype": dtype,
             "out_sim_score": draw(st.booleans()),
